@@ -116,17 +116,35 @@ def check_with(src_stmt: str, ctx: str, body: str, after: str, before: str = "",
     return {"ok": True, "src": src}
 
 
+def proc_rest_class(rest: str):
+    """Does the macro's rest contain a token kind the subprocess-macro rule cannot take? (closing brace, a bracket group
+    inside a bracket group, an f-string, a backtick search path)"""
+    import re
+
+    if "}" in rest or "`" in rest or re.search(r"(?i)\b[rbp]*f[rbp]*['\"]", rest):
+        return True
+    depth = 0
+    for ch in rest:
+        if ch in "([":
+            depth += 1
+            if depth > 1:
+                return True
+        elif ch in ")]":
+            depth = max(0, depth - 1)
+    return False
+
+
 def check_proc(src_expr: str, cmd: str, rest: str, method: str, prefix: str, suffix: str, variant="shipped"):
     src = f"{prefix}{src_expr}{suffix}"
     tree, o = impl.parse_tree(src, "exec", variant=variant)
     if tree is None:
-        return {"kind": "rejected", "src": src, "outcome": {k: v for k, v in o.items() if k in ("k", "cls", "msg", "lineno", "offset")}}
+        return {"kind": "rejected", "src": src, "proc_rest_class": proc_rest_class(rest), "outcome": {k: v for k, v in o.items() if k in ("k", "cls", "msg", "lineno", "offset")}}
     calls = find_calls(tree, method)
     if len(calls) != 1:
         return {"kind": "macro-count", "src": src, "n": len(calls)}
     got = [getattr(a, "value", None) for a in calls[0].args]
     if got != [cmd, rest]:
-        return {"kind": "rest-not-verbatim", "src": src, "got": got, "want": [cmd, rest]}
+        return {"kind": "rest-not-verbatim", "src": src, "proc_rest_class": proc_rest_class(rest), "got": got, "want": [cmd, rest]}
     # the code on the following lines parses as it does alone
     after = suffix.split("\n", 1)[1] if "\n" in suffix else ""
     if after.strip() and "\n" not in prefix:
@@ -155,6 +173,10 @@ def build_inputs(tier):
         x, fn, written = xonshgen.gen_call_macro(r)
         pre, suf = r.choice(CALL_CTX)
         cases.append(("call", (pre, fn, written, suf)))
+    for cont in ["a \\\n b", "(b \\\n + c)", "x, y \\\n", "'s' \\\r\n 't'"]:
+        cases.append(("call", ("r = ", "f", cont.split(",") if "," in cont and "(" not in cont else [cont], "\n")))
+    for rest in ["{a} b", "(a (b) c) d", "f'{x}' y", "`a.*` z", "[x [y]]"]:
+        cases.append(("proc", (f"$(echo! {rest})", "echo", rest, "subproc_captured", "", "\n")))
     for _ in range(500 * N):
         s, ctx, body = xonshgen.gen_with_macro(r)
         cases.append(("with", (s, ctx, body, r.choice(AFTER), r.choice(BEFORE))))
@@ -167,6 +189,14 @@ def build_inputs(tier):
 
 
 def classify(kind, o):
+    """Known-finding classes, decided from the WRITTEN input (see known_findings.json)."""
+    import re
+
+    src = o.get("src") or ""
+    if kind == "call" and o.get("kind") == "args-not-verbatim" and re.search(r"\\\r?\n", "".join(o.get("want") or [])):
+        return "KF-C07-continuation-in-call-macro"
+    if kind == "proc" and o.get("kind") in ("rejected", "rest-not-verbatim", "macro-count") and o.get("proc_rest_class"):
+        return "KF-C07-proc-macro-token-kinds"
     return None
 
 
